@@ -273,3 +273,74 @@ package proxy
 //@ func deleteCookieHandler$1(rw http.ResponseWriter, req *http.Request)
 //@   modifies everything
 //@   sink [C12 C03] cookie_removed_before_the_rest: ServeHTTP requires $arg0 == rw && $arg1 == req && called(@deleteCookie#1) && arg(@deleteCookie#1, 0) == req && arg(@deleteCookie#1, 1) == cookieName
+
+// connNames(v, name): the Connection value v names header `name` (spec/prelude.spec). Afterwards no signed header is
+// named in Connection, so the reverse proxy's hop-by-hop removal (assumed: it removes exactly the headers named in
+// Connection and the fixed hop-by-hop list, none of which is signed) leaves every signed header in place.
+//@ func protectSignedHeaders(h http.Header)
+//@   modifies hdrmap(h)
+//@   ensures [C12 C03] no_signed_header_is_named_in_connection: forall i, k :: 0 <= i && i < len(h["Connection"]) && 0 <= k && k < len(signedHeaders) ==> !connNames(h["Connection"][i], signedHeaders[k])
+//@   ensures [C12 C03] other_headers_untouched: forall n string :: n != "Connection" ==> (n in h) == old(n in h) && h[n] == old(h[n])
+//@   ensures [C12] absent_stays_absent: !old("Connection" in h) ==> !("Connection" in h)
+//@   loop 1
+//@     invariant len(kept) >= 0
+//@     invariant forall i, k :: 0 <= i && i < len(kept) && 0 <= k && k < len(signedHeaders) ==> !connNames(kept[i], signedHeaders[k])
+//@   loop 2
+//@     invariant len(kept) >= 0
+//@     invariant forall i, k :: 0 <= i && i < len(kept) && 0 <= k && k < len(signedHeaders) ==> !connNames(kept[i], signedHeaders[k])
+//@   loop 3
+//@     invariant len(kept) >= 0
+//@     invariant forall i, k :: 0 <= i && i < len(kept) && 0 <= k && k < len(signedHeaders) ==> !connNames(kept[i], signedHeaders[k])
+//@     invariant !signed ==> (forall k :: 0 <= k && k < $i ==> canonhdr(token) != signedHeaders[k])
+
+// The director runs on the outgoing copy after signing. For a bare-host target (no path, no query — every
+// documented `to`) it leaves path and query as signed; it changes no covered header; and afterwards no covered
+// header is named in Connection (so the reverse proxy's hop-by-hop removal keeps them all).
+//@ func (d *Director) DirectorFunc$1(req *http.Request)
+//@   modifies req.URL.Scheme, req.URL.Host, req.URL.Path, req.URL.RawQuery, req.Host, hdrmap(req.Header)
+//@   ensures [C12] bare_target_keeps_path_and_query: target.Path == "" && target.RawQuery == "" && hasPrefix(old(req.URL.Path), "/") ==> req.URL.Path == old(req.URL.Path) && req.URL.RawQuery == old(req.URL.RawQuery)
+//@   ensures [C12] covered_headers_untouched: forall n string :: n != "Connection" && n != "User-Agent" && n != "X-Forwarded-Host" ==> (n in req.Header) == old(n in req.Header) && req.Header[n] == old(req.Header[n])
+//@   ensures [C12 C03] no_covered_header_is_hop_by_hop: forall i, k :: 0 <= i && i < len(req.Header["Connection"]) && 0 <= k && k < len(signedHeaders) ==> !connNames(req.Header["Connection"][i], signedHeaders[k])
+//@   ensures [C12] body_untouched: req.Body == old(req.Body)
+
+// The documented <URL> line does not determine path, query and fragment: a '?' or '#' inside the (decoded) path
+// is indistinguishable from the separator. Known finding K3 — see /verif/known-findings.txt.
+//@ lemmafn C12_url_line_determines_path_and_query(p1 string, q1 string, f1 string, p2 string, q2 string, f2 string)
+//@   requires urlLine(p1, q1, f1) == urlLine(p2, q2, f2)
+//@   ensures [C12] same_path_query_fragment: p1 == p2 && q1 == q2 && f1 == f2
+
+// With paths, queries and fragments that contain neither '?' nor '#' (and no '#' in the query) it does.
+//@ lemmafn C12_url_line_injective_without_separators_inside(p1 string, q1 string, f1 string, p2 string, q2 string, f2 string)
+//@   requires !contains(p1, "?") && !contains(p1, "#") && !contains(p2, "?") && !contains(p2, "#") && !contains(q1, "#") && !contains(q2, "#")
+//@   requires urlLine(p1, q1, f1) == urlLine(p2, q2, f2)
+//@   ensures [C12] same_path_query_fragment: p1 == p2 && q1 == q2 && f1 == f2
+
+// The signer: the published key is the public half of the signing key, and its id is the hex SHA-256 of the PEM text.
+//@ func NewRequestSigner(signingKeyPemStr string) (*RequestSigner, error)
+//@   modifies nothing
+//@   let K = result.0.signingKey
+//@   let H = @New#1
+//@   ensures [C12] published_key_is_the_public_half_of_the_signing_key: result.1 == nil ==> result.0 != nil && called(@Public#1) && arg(@Public#1, 0) == K && typeis(@Public#1, "*crypto/rsa.PublicKey") && called(@MarshalPKCS1PublicKey#1) && arg(@MarshalPKCS1PublicKey#1, 0) == unbox(@Public#1, "*crypto/rsa.PublicKey") && called(@EncodeToMemory#1) && at(@EncodeToMemory#1, arg(@EncodeToMemory#1, 0).Type == "RSA PUBLIC KEY" && arg(@EncodeToMemory#1, 0).Bytes == @MarshalPKCS1PublicKey#1) && result.0.publicKeyStr == @EncodeToMemory#1
+//@   ensures [C12] key_id_is_the_digest_of_the_published_key: result.1 == nil ==> called(@EncodeToString#1) && result.0.publicKeyID == @EncodeToString#1 && arg(@EncodeToString#1, 0) == hmacOf(H.$hkey, result.0.publicKeyStr)
+//@   ensures [C12] signing_key_is_the_parsed_key: result.1 == nil ==> called(@ParsePKCS8PrivateKey#1) && @ParsePKCS8PrivateKey#1.1 == nil && K == @ParsePKCS8PrivateKey#1.0
+
+//@ func (signer RequestSigner) PublicKey() (string, string)
+//@   modifies nothing
+//@   ensures [C12] id_and_key: result.0 == signer.publicKeyID && result.1 == signer.publicKeyStr
+
+// What /oauth2/v1/certs serves: the JSON object {kid: pem} of the signer the proxy signs with.
+//@ func SetRequestSigner$1(op *OAuthProxy) error
+//@   modifies op.requestSigner, op.publicCertsJSON
+//@   let ok = signer != nil && result == nil
+//@   ensures [C12] keeps_this_signer: ok ==> op.requestSigner == signer && called(@PublicKey#1)
+//@   ensures [C12] publishes_the_encoding_of_the_key_map: ok ==> called(@MarshalIndent#1) && @MarshalIndent#1.1 == nil && op.publicCertsJSON == @MarshalIndent#1.0 && typeis(arg(@MarshalIndent#1, 0), "map[string]string") && arg(@MarshalIndent#1, 0).pay == certs
+//@   ensures [C12] key_map_is_kid_to_pem_of_this_signer: ok ==> (forall k string :: (k in certs) ==> k == signer.publicKeyID) && (signer.publicKeyID in certs) && certs[signer.publicKeyID] == signer.publicKeyStr
+//@   ensures [C12] no_signer_nothing_published: signer == nil ==> result == nil && op.requestSigner == old(op.requestSigner) && op.publicCertsJSON == old(op.publicCertsJSON)
+
+//@ func (p *OAuthProxy) Certs(rw http.ResponseWriter, _ *http.Request)
+//@   modifies rw.$written, rw.$status, rw.$bodyWritten
+//@   ensures [C12] serves_the_published_keys: rw.$written == old(rw.$written) + p.publicCertsJSON
+
+// the covered headers are the documented ones, in the documented order
+//@ lemmafn C12_covered_headers_are_the_documented_list()
+//@   ensures [C12] documented_list: len(signedHeaders) == 10 && signedHeaders[0] == "Content-Length" && signedHeaders[1] == "Content-Md5" && signedHeaders[2] == "Content-Type" && signedHeaders[3] == "Date" && signedHeaders[4] == "Authorization" && signedHeaders[5] == "X-Forwarded-User" && signedHeaders[6] == "X-Forwarded-Email" && signedHeaders[7] == "X-Forwarded-Groups" && signedHeaders[8] == "X-Forwarded-Access-Token" && signedHeaders[9] == "Cookie"
